@@ -59,6 +59,17 @@ def gen_plan(seed: int, run: int, tier: str) -> dict:
     for v in rng.sample(sorted(workers), min(nf, nworkers - 1)):
         region = frng.choice(REGIONS)
         faults.append({"victim": v, "region": region, "nth": frng.choice([0, 1, 2, 3, 5, 8, 13, 21]) if region != "any" else frng.randrange(0, 250)})
+    # a stalled (but alive) worker: its heartbeat thread hangs for longer than the grace period
+    # while its objective keeps running; its trial is legitimately failed by a sweeper - the
+    # at-most-once clauses must still hold
+    if rng.random() < 0.25:
+        live = [w for w in sorted(workers) if w not in {f["victim"] for f in faults}]
+        if live:
+            v = rng.choice(live)
+            g = (grace if grace is not None else 2 * hb)
+            faults.append({"victim": v, "region": "stall", "nth": frng.choice([1, 1, 2, 3]), "dur": g + rng.choice([1, 2, 5]) * hb})
+            for t in workers[v]["trials"]:
+                t["dur"] = max(t["dur"], g + 8 * hb)
     cfg = {
         "deployment": rng.choice(["rdb", "cached"]),
         "heartbeat_interval": hb,
@@ -128,7 +139,7 @@ def _run(plan: dict, sim: sched.Sim, ch: sched.Chooser, dep: deploy.Deployment) 
             return  # heartbeat thread: dies with its process, never the trigger
         reg = cur_region(name)
         for f in faults:
-            if f.get("fired") or f["victim"] != root:
+            if f.get("fired") or f["victim"] != root or f["region"] == "stall":
                 continue
             if f["region"] != "any" and f["region"] != reg:
                 continue
@@ -161,6 +172,8 @@ def _run(plan: dict, sim: sched.Sim, ch: sched.Chooser, dep: deploy.Deployment) 
                 region[name].pop()
 
     beat_ids: set = set()
+    beats: dict[str, int] = {}
+    stalled: set = set()
     procs = {n: sim.proc("P" + n) for n in sorted(plan["workers"])}
     boot = sim.proc("BOOT")
 
@@ -180,6 +193,17 @@ def _run(plan: dict, sim: sched.Sim, ch: sched.Chooser, dep: deploy.Deployment) 
         orig_beat = st.record_heartbeat
 
         def record_heartbeat(trial_id: int) -> None:
+            name = sim.cur.name if sim.in_task() else "harness"
+            root = task_root(name)
+            for f in faults:
+                if f["region"] == "stall" and f["victim"] == root and not f.get("fired"):
+                    beats[root] = beats.get(root, 0) + 1
+                    if beats[root] - 1 == f["nth"]:
+                        f["fired"] = True
+                        stalled.add(root)
+                        sim.count("stall_heartbeat")
+                        sim.note("stall", root, f["dur"])
+                        sim.sleep(f["dur"])  # the heartbeat thread hangs; the worker lives on
             orig_beat(trial_id)
             beat_ids.add(trial_id)  # a heartbeat row really exists from now on
 
@@ -264,6 +288,10 @@ def _run(plan: dict, sim: sched.Sim, ch: sched.Chooser, dep: deploy.Deployment) 
             except Exception as e:  # noqa
                 if procs[name].dead:
                     raise sched.SimKilled()  # an exception of the dying process's own unwinding
+                if name in stalled:
+                    sim.count("obs_stalled_worker_lost_its_trial")  # legitimate: it was failed while stalled
+                    st.remove_session()
+                    return
                 verdict.append((prefix + "optimize-raised|" + type(e).__name__, "%s: optimize raised %r" % (name, e)))
             st.remove_session()
 
@@ -356,7 +384,7 @@ def _run(plan: dict, sim: sched.Sim, ch: sched.Chooser, dep: deploy.Deployment) 
         own = owner.get(t.number)
         if t.number not in has_hb:
             return viol("touched-trial-without-heartbeat", "trial number %d never had a heartbeat but was failed by %s's sweep" % (t.number, e[2]))
-        if own is not None and own not in dead:
+        if own is not None and own not in dead and own not in stalled:
             return viol("failed-live-workers-trial", "trial number %d of live worker %s was failed by %s's sweep" % (t.number, own, e[2]))
     # retries
     retried_from: dict[int, list] = {}
@@ -396,6 +424,6 @@ def _run(plan: dict, sim: sched.Sim, ch: sched.Chooser, dep: deploy.Deployment) 
     for t in trials:
         if t.state == TrialState.RUNNING and t.number in has_hb and owner.get(t.number) in dead:
             return viol("stale-trial-not-failed", "trial %d of dead worker %s is still RUNNING after a sweep that started %.1fs after the last event (grace %.1fs)" % (t.number, owner.get(t.number), eff_grace + hb + 1.0, eff_grace))
-        if t.state == TrialState.RUNNING and owner.get(t.number) is not None and owner.get(t.number) not in dead and t.number in has_hb:
+        if t.state == TrialState.RUNNING and owner.get(t.number) is not None and owner.get(t.number) not in dead and owner.get(t.number) not in stalled and t.number in has_hb:
             return viol("live-trial-left-running", "trial %d of worker %s (alive, optimize returned) is RUNNING" % (t.number, owner.get(t.number)))
     return common.result(sim, ch, "ok", nontrivial=nontrivial, extra_counters={"crashes_fired": fired, "swept_fail": swept, "callbacks": len([e for e in events if e[0] == "callback"]), "retries": len(retried_from)})
